@@ -80,6 +80,10 @@ pub struct Case {
     /// threshold 1, so that the hop changes nothing but the threshold
     #[serde(default)]
     pub same_keys: bool,
+    /// the authorizing document lists every key id of the tested role twice (a key listed twice is
+    /// still one key)
+    #[serde(default)]
+    pub dup_keyids: bool,
 }
 
 // reserved pool keys (all ed25519) for the clean parts of the repository
@@ -246,7 +250,7 @@ pub fn build(case: &Case) -> Scenario {
     let ghost_id = key(K_GHOST).keyid.clone();
 
     let patch = |role: &str, signed: &mut Value| {
-        if !ghost || role != parent {
+        if role != parent || !(ghost || case.dup_keyids) {
             return;
         }
         // list the ghost key id for the tested role without adding its key object to the table
@@ -261,7 +265,14 @@ pub fn build(case: &Case) -> Scenario {
                 &mut r["keyids"]
             }
         };
-        arr.as_array_mut().expect("keyids").push(json!(ghost_id));
+        let arr = arr.as_array_mut().expect("keyids");
+        if case.dup_keyids {
+            let again = arr.clone();
+            arr.extend(again);
+        }
+        if ghost {
+            arr.push(json!(ghost_id));
+        }
     };
 
     let sigs = |role: &str, signed: &Value, c: &[u8]| -> Option<Vec<Value>> {
@@ -505,7 +516,8 @@ fn case_strategy() -> impl Strategy<Value = Case> {
         .prop_map(|(site, consistent, keys, threshold, sigs)| {
             // a third of the hops under new keys change nothing but the threshold
             let same_keys = site == Site::HopNewKeys && (sigs.len() + keys.len()) % 3 == 0;
-            Case { site, consistent, keys, threshold, sigs, same_keys }
+            let dup_keyids = (sigs.len() + keys.len() + threshold as usize) % 4 == 0;
+            Case { site, consistent, keys, threshold, sigs, same_keys, dup_keyids }
         })
 }
 
@@ -546,6 +558,8 @@ fn enumerate(n: u8, max_len: usize) -> Vec<Case> {
                     threshold: t,
                     sigs: l.clone(),
                     same_keys: false,
+                    // every third list also with each key id of the role listed twice
+                    dup_keyids: out.len() % 3 == 0,
                 });
                 if site == Site::HopNewKeys {
                     let mut c = out.last().unwrap().clone();
@@ -570,7 +584,7 @@ pub fn check(ctx: &Ctx) -> Vec<PartReport> {
         ctx,
         PartSpec {
             name: "lists-exhaustive",
-            rule: "EXHAUSTIVE: at each of the 8 verification sites (the hop under new keys twice: with replaced root keys, and with the same root keys and only the threshold raised), 2 ed25519 role keys, thresholds 1 and 2, every signature list of length <=3 (quick) / <=4 (thorough; plus 3 keys, thresholds 1..3, lists <=3) over {valid by k, valid by k with upper-case key id, corrupted by k, valid over other content by k (k=0,1), key of another role, unknown key, key id listed but key missing from the table}; each case is a forged repository loaded through RepositoryLoader::load and the parsed documents passed to verify_role. Non-trivial: threshold >=2 or any entry other than a plain valid signature; distinct = (site, n, threshold, multiset of kinds)",
+            rule: "EXHAUSTIVE: at each of the 8 verification sites (the hop under new keys twice: with replaced root keys, and with the same root keys and only the threshold raised), 2 ed25519 role keys, thresholds 1 and 2, every signature list of length <=3 (quick) / <=4 (thorough; plus 3 keys, thresholds 1..3, lists <=3) over {valid by k, valid by k with upper-case key id, corrupted by k, valid over other content by k (k=0,1), key of another role, unknown key, key id listed but key missing from the table}; in every third case the authorizing document lists each key id of the role twice; each case is a forged repository loaded through RepositoryLoader::load and the parsed documents passed to verify_role. Non-trivial: threshold >=2 or any entry other than a plain valid signature; distinct = (site, n, threshold, multiset of kinds)",
             mode: Mode::Enumerate { cases, complete: true },
             prop: Box::new(prop),
             require: vec![],
